@@ -120,7 +120,7 @@ RESERVED = {"end": "end_", "at": "at_", "in": "in_", "fun": "fun_", "match": "ma
             "Some": "Some_", "None": "None_", "nil": "nil_", "cons": "cons_", "Z": "Z_", "N": "N_"}
 
 # globals the generated text may mention (besides what a spec names): never bindable by a Python local
-EMITTED = {"run_while", "iter_for", "iter_while", "SCont", "SBrk", "SRet", "Cont", "Brk", "Ret", "RDone", "RRaise",
+EMITTED = {"out1_", "v_", "it_", "oivld", "sub_while", "run_for_o", "run_while", "iter_for", "iter_while", "SCont", "SBrk", "SRet", "Cont", "Brk", "Ret", "RDone", "RRaise",
            "RFuel", "RSkip", "res", "zmem", "oZ_eqb", "nonempty", "py_index", "zrange", "bisect_right",
            "Plain", "NEG_INF", "POS_INF", "ValueError", "TypeError", "KeyError", "IndexError", "freq_eqb",
            "Daily", "Weekly", "Monthly", "Yearly", "sl_add", "sl_remove", "fetch_static", "cov_add", "cov_remove",
@@ -183,6 +183,10 @@ class Tr:
         self.enums = spec.get("enums", {})               # type -> (eqb, {literal: constructor})
         self.tuples = spec.get("tuples", {})             # type -> [component types] (a left-nested Coq product)
         self.pops = spec.get("pops", {})                 # unparsed callee -> dict(arg, var, result, update, ret)
+        self.text_exprs = spec.get("text_exprs", {})     # exact source text of an expression -> (coq text, type)
+        self.inline = set(spec.get("inline", []))        # local closures (no parameters) inlined at their calls
+        self.closures = {}
+        self.opt_body = False                            # inside the body of a run_for_o loop
         self.types = dict(COQ_TYPE)
         self.types.update(spec.get("types", {}))
         self.defaults = {"IVL": "(mkI None None Plain)", "Z": "0"}
@@ -277,6 +281,8 @@ class Tr:
             raise Unsupported(f"Optional {what} used as an int without a None test")
         if self.is_list(ty) and want == "B":
             return f"(nonempty {text})"
+        if ty == "OIVL" and want == "B":
+            return f"(negb (is_none {text}))"        # an Interval object is always truthy
         raise Unsupported(f"cannot use {ty} as {want} {what}")
 
     def unify(self, t1, t2):
@@ -294,6 +300,8 @@ class Tr:
         return self.coerce(text, ty, want, ast.unparse(e), e, env), (want or ty)
 
     def expr0(self, e, env, want=None):
+        if self.text_exprs and ast.unparse(e) in self.text_exprs:
+            return self.text_exprs[ast.unparse(e)]
         if isinstance(e, ast.Constant):
             if e.value is None:
                 return "None", "NONE"
@@ -320,6 +328,8 @@ class Tr:
                     return self.selfattrs[e.attr]
                 raise Unsupported(f"self.{e.attr}")
             vt, vty = self.expr0(e.value, env)
+            if vty == "OIVL" and is_path(e.value) and self.known_some(e.value, env):
+                vt, vty = f"(oivld {vt})", "IVL"
             if vty == "IVL":
                 m = {"start": (f"(st {vt})", "OZ"), "end": (f"(en {vt})", "OZ"),
                      "finite_start": (f"(fstart {vt})", "Z"), "finite_end": (f"(fend {vt})", "Z")}
@@ -567,6 +577,12 @@ class Tr:
             a = self.expr(kw["start"], env, "OZ")[0] if "start" in kw else f"(st {x})"
             b = self.expr(kw["end"], env, "OZ")[0] if "end" in kw else f"(en {x})"
             return f"(set_span {x} {a} {b})", "IVL"
+        if fn == "iter" and len(e.args) == 1 and not e.keywords:
+            # an iterator over a stream = the list of the items not yet consumed (see `next` in try_stmt)
+            x, ty = self.expr0(e.args[0], env)
+            if not self.is_list(ty):
+                raise Unsupported(f"iter of {ty}")
+            return x, ty
         if fn in ("reversed", "list", "len") and len(e.args) == 1 and not e.keywords:
             x, ty = self.expr0(e.args[0], env)
             if not self.is_list(ty):
@@ -664,6 +680,8 @@ class Tr:
             return set()
         if isinstance(test, ast.UnaryOp) and isinstance(test.op, ast.Not):
             return self.facts(test.operand, not holds)
+        if is_path(test) and holds:
+            return {ast.unparse(test)}           # a truthy value is not None
         return set()
 
     def refine(self, test, env, holds):
@@ -712,6 +730,12 @@ class Tr:
                         add(self.target_key(t))
             elif isinstance(sub, (ast.AnnAssign, ast.AugAssign)):
                 add(self.target_key(sub.target))
+            elif isinstance(sub, ast.Try) and self.next_form(sub) is not None:
+                add(self.next_form(sub)[1])
+            elif isinstance(sub, ast.Expr) and isinstance(sub.value, ast.Call) and \
+                    isinstance(sub.value.func, ast.Name) and sub.value.func.id in self.closures:
+                for k in self.assigned(self.closures[sub.value.func.id]):
+                    add(k)
             elif isinstance(sub, ast.Expr):
                 ef = self.effect_of(sub)
                 if ef is not None and ef[0] is not None:
@@ -725,13 +749,31 @@ class Tr:
         if isinstance(s, (ast.Assign, ast.AnnAssign, ast.AugAssign, ast.Pass)):
             return not any(isinstance(x, (ast.Yield, ast.YieldFrom)) for x in ast.walk(s))
         if isinstance(s, ast.Expr):
+            if isinstance(s.value, ast.Call) and isinstance(s.value.func, ast.Name) and \
+                    s.value.func.id in self.closures and not s.value.args and not s.value.keywords:
+                return all(self.is_pure(x) for x in self.closures[s.value.func.id])
             return (isinstance(s.value, ast.Constant) and isinstance(s.value.value, str)) or \
                 self.effect_of(s) is not None
         if isinstance(s, ast.If):
             if ast.unparse(s.test) in self.skip_tests:
                 return False
             return all(self.is_pure(x) for x in s.body) and all(self.is_pure(x) for x in s.orelse)
+        if isinstance(s, ast.Try) and self.next_form(s) is not None:
+            return all(self.is_pure(x) for x in s.handlers[0].body)
         return False
+
+    def next_form(self, s):
+        """try: x = next(it)  except StopIteration: H   ->  (x, it) or None"""
+        if s.orelse or s.finalbody or len(s.handlers) != 1 or len(s.body) != 1:
+            return None
+        h, b = s.handlers[0], s.body[0]
+        if h.name is not None or not isinstance(h.type, ast.Name) or h.type.id != "StopIteration":
+            return None
+        if isinstance(b, ast.Assign) and len(b.targets) == 1 and isinstance(b.targets[0], ast.Name) and \
+                isinstance(b.value, ast.Call) and isinstance(b.value.func, ast.Name) and b.value.func.id == "next" \
+                and len(b.value.args) == 1 and not b.value.keywords and isinstance(b.value.args[0], ast.Name):
+            return b.targets[0].id, b.value.args[0].id
+        return None
 
     def state_type(self, key):
         if key.startswith("@"):
@@ -783,6 +825,39 @@ class Tr:
             if decl:
                 self.declared[key] = decl
             return self.assign(key, t, ty, env, pad, rest, fin, ind)
+        if isinstance(s, ast.FunctionDef):
+            # a local closure without parameters whose assigned names are all nonlocal: inlined at its calls
+            a = s.args
+            if s.name not in self.inline or s.decorator_list or a.args or a.posonlyargs or a.kwonlyargs or \
+                    a.vararg or a.kwarg or self.loop_depth or s.name in env:
+                raise Unsupported(f"local function {s.name}")
+            nonlocals, body = set(), []
+            for x in s.body:
+                if isinstance(x, ast.Nonlocal):
+                    nonlocals |= set(x.names)
+                else:
+                    body.append(x)
+            for sub in ast.walk(ast.Module(body=body, type_ignores=[])):
+                if isinstance(sub, (ast.Return, ast.Yield, ast.YieldFrom, ast.FunctionDef, ast.Lambda, ast.Nonlocal,
+                                    ast.Global, ast.For, ast.While, ast.Break, ast.Continue)):
+                    raise Unsupported(f"{type(sub).__name__} in the local function {s.name}")
+            iters = {self.next_form(x)[1] for x in ast.walk(ast.Module(body=body, type_ignores=[]))
+                     if isinstance(x, ast.Try) and self.next_form(x) is not None}
+            for k in self.assigned(body):
+                if k in iters and k in env and k not in nonlocals:
+                    continue                     # next(it) consumes the enclosing iterator object
+                if k.startswith("@") or k not in nonlocals or k not in env:
+                    raise Unsupported(f"the local function {s.name} assigns {k}, which is not a nonlocal defined before it")
+            self.closures[s.name] = body
+            self.bind(env, s.name, "U")          # (only the name check)
+            return self.block(rest, env, fin, ind)
+        if isinstance(s, ast.Expr) and isinstance(s.value, ast.Call) and isinstance(s.value.func, ast.Name) and \
+                s.value.func.id in self.closures and s.value.func.id not in env:
+            if s.value.args or s.value.keywords:
+                raise Unsupported(f"call shape of {s.value.func.id}")
+            if rest and self.is_pure(s):
+                return self.join_if(s, rest, env, fin, ind)
+            return self.block(list(self.closures[s.value.func.id]) + rest, env, fin, ind)
         if isinstance(s, ast.Expr) and isinstance(s.value, ast.Yield):
             if self.kind != "gen" or s.value.value is None:
                 raise Unsupported("yield")
@@ -844,6 +919,8 @@ class Tr:
         if isinstance(s, (ast.For, ast.While)):
             return self.loop(s, rest, env, fin, ind)
         if isinstance(s, ast.Try):
+            if rest and self.is_pure(s):
+                return self.join_if(s, rest, env, fin, ind)
             return self.try_stmt(s, rest, env, fin, ind)
         raise Unsupported(f"statement {type(s).__name__}: {ast.unparse(s)[:80]}")
 
@@ -966,6 +1043,19 @@ class Tr:
     def try_stmt(self, s, rest, env, fin, ind):
         """try: return f(..)  except E: H   with f declared to raise E (its Coq form returns an option)"""
         pad = "  " * ind
+        nf = self.next_form(s)
+        if nf is not None:
+            x, it = nf
+            if it not in env or not self.is_list(env[it]):
+                raise Unsupported(f"next of {it}")
+            ity = self.item_of(env[it])
+            want = self.declared.get(x)
+            val = self.coerce("v_", ity, want, f"(next({it}))")
+            env_ok = self.bind(self.bind(env, x, want or ity), it, env[it])
+            ok = self.block(rest, env_ok, fin, ind + 2)
+            hb = self.block(list(s.handlers[0].body) + rest, env, fin, ind + 1)
+            return (f"{pad}match {cname(it)} with\n{pad}| v_ :: it_ =>\n{pad}  let {cname(x)} := {val} in\n"
+                    f"{pad}  let {cname(it)} := it_ in\n{ok}\n{pad}| [] =>\n{hb}\n{pad}end")
         if s.orelse or s.finalbody or len(s.handlers) != 1 or len(s.body) != 1:
             raise Unsupported("try shape")
         h = s.handlers[0]
@@ -1008,7 +1098,49 @@ class Tr:
         return f"{pad}match {t} with\n{pad}| Some v_ =>\n{pad}  {ok}\n{pad}| None =>\n{hb}\n{pad}end"
 
     # ---------------------------------------------------------------- loops
+    def inner_while(self, s, rest, env, fin, ind):
+        """a `while` directly in the body of a generator's `for` (run_for_o): sub_while"""
+        if s.orelse:
+            raise Unsupported("loop with else")
+        pad, p1, p2 = "  " * ind, "  " * (ind + 1), "  " * (ind + 2)
+        nil = f"@nil {self.out_type}"
+        state = [k for k in self.assigned(s.body) if k in env]
+        state_ty = {k: (self.genparams[k[1:]] if k.startswith("@") else self.declared.get(k, env[k])) for k in state}
+
+        def pack(e2):
+            items = [self.coerce(cname(v), e2[v], state_ty[v], f"(state variable {v})") for v in state]
+            return "tt" if not items else (items[0] if len(items) == 1 else "(" + ", ".join(items) + ")")
+        names = [cname(v) for v in state]
+        unpack = "_" if not names else (names[0] if len(names) == 1 else "'(" + ", ".join(names) + ")")
+        env_loop = dict(env)
+        for v in state:
+            env_loop = self.kill(env_loop, v) if not v.startswith("@") else env_loop
+            env_loop[v] = state_ty[v]
+        cond, _ = self.expr(s.test, env_loop, "B")
+        env_body = self.refine(s.test, env_loop, True)
+        env_body["$y"] = False
+
+        def fin_in(e2, k, v=None):
+            if k in ("end", "continue"):
+                return f"(out, {pack(e2)}, true)"
+            if k == "break":
+                return f"(out, {pack(e2)}, false)"
+            raise Unsupported(f"{k} inside a nested loop")
+        self.loop_depth += 1
+        try:
+            body_t = self.block(s.body, env_body, fin_in, ind + 3)
+        finally:
+            self.loop_depth -= 1
+        env_after = dict(env_loop)
+        env_after["$y"] = True
+        rest_t = self.block(rest, env_after, fin, ind + 1)
+        return (f"{pad}match sub_while fuel\n{p2}(fun {unpack} => {cond})\n{p2}(fun {unpack} =>\n{p2}  let out := {nil} in\n"
+                f"{body_t})\n{p2}{pack(env)} with\n{pad}| None => None\n"
+                f"{pad}| Some (out1_, {unpack.lstrip(chr(39))}) =>\n{p1}let out := out ++ out1_ in\n{rest_t}\n{pad}end")
+
     def loop(self, s, rest, env, fin, ind):
+        if self.loop_depth == 1 and self.opt_body and isinstance(s, ast.While) and self.kind == "gen":
+            return self.inner_while(s, rest, env, fin, ind)
         if self.loop_depth > 0:
             raise Unsupported("nested loop")
         if s.orelse:
@@ -1055,12 +1187,15 @@ class Tr:
         if gen:
             if not is_for and env.get("$y"):
                 raise Unsupported("while loop after a yield")
+            opt = is_for and any(isinstance(x, ast.While) for b in s.body for x in ast.walk(b))
+            if opt and (not self.res or self.plain or env.get("$y")):
+                raise Unsupported("a loop nested in a loop needs a res result")
 
             def fin_body(e2, k, v=None):
                 ctl = {"end": "Cont", "continue": "Cont", "break": "Brk", "return": "Ret"}.get(k)
                 if ctl is None:
                     raise Unsupported(f"{k} inside a loop")
-                return f"(out, {pack(e2)}, {ctl})"
+                return f"Some (out, {pack(e2)}, {ctl})" if opt else f"(out, {pack(e2)}, {ctl})"
 
             def fin_post(e2, k, v=None):
                 if k in ("end", "return"):
@@ -1068,10 +1203,12 @@ class Tr:
                 raise Unsupported(f"{k} after the loop")
             self.loop_depth += 1
             self.plain += 1
+            self.opt_body = opt
             try:
                 body_t = self.block(s.body, env_body, fin_body, ind + 2)
             finally:
                 self.loop_depth -= 1
+                self.opt_body = False
             try:
                 # (variables assigned only inside the loop body are not in scope after the loop: a use
                 #  there is an unknown name, i.e. Unsupported)
@@ -1080,6 +1217,8 @@ class Tr:
                 self.plain -= 1
             fns = (f"{p1}{head}\n{p2}let out := {nil} in\n{body_t})\n"
                    f"{p1}(fun {unpack} =>\n{p2}let out := {nil} in\n{post_t})\n")
+            if opt:
+                return f"{pad}run_for_o\n{fns}{p1}{pack(env)} {stream}"
             if is_for:
                 text = f"run_for\n{fns}{p1}{pack(env)} {stream}"
                 if env.get("$y"):
@@ -1161,8 +1300,8 @@ class Tr:
         name = spec["name"]
         for s in body:
             for sub in ast.walk(s):
-                if isinstance(sub, (ast.With, ast.FunctionDef, ast.AsyncFunctionDef, ast.ClassDef, ast.Global,
-                                    ast.Nonlocal, ast.Delete, ast.Await, ast.NamedExpr, ast.Starred)):
+                if isinstance(sub, (ast.With, ast.AsyncFunctionDef, ast.ClassDef, ast.Global,
+                                    ast.Delete, ast.Await, ast.NamedExpr)):
                     raise Unsupported(f"construct {type(sub).__name__}")
                 if isinstance(sub, (ast.Raise, ast.Try)) and not self.res:
                     raise Unsupported(f"{type(sub).__name__} in a function without a res result")
